@@ -6,6 +6,8 @@ import (
 	"errors"
 	"fmt"
 	"io"
+	"math/rand"
+	"os"
 	"reflect"
 	"regexp"
 	"runtime"
@@ -864,3 +866,166 @@ func truncate(s string, n int) string {
 func init() {
 	commands["replay-C01"] = func(a []string) int { return replayLoop(a[0], a[1], c01Replay) }
 }
+
+// ---- code -> spec: seeded random programs, larger than the model-checked families -------------
+// Only the discipline is checked on them (Trace_Exec): restoration of scope depth, context,
+// content and writer, buffering, clean Runtime. No expected output is needed.
+
+type progGen struct {
+	rng     *rand.Rand
+	n       int
+	depth   int
+	noCalls bool // inside library blocks / included templates: no yield, include, exec (no recursion)
+}
+
+func (g *progGen) id(p string) string { g.n++; return fmt.Sprintf("%s%d", p, g.n) }
+
+func (g *progGen) expr() xExpr {
+	switch g.rng.Intn(7) {
+	case 0:
+		return xExpr{K: "ctx"}
+	case 1:
+		return xExpr{K: "var", A: []string{"s", "x1", "k", "v"}[g.rng.Intn(4)]}
+	case 2:
+		return xExpr{K: "fail"}
+	case 3:
+		return xExpr{K: "isset", A: "x1"}
+	}
+	return xExpr{K: "lit", A: fmt.Sprintf("l%d", g.rng.Intn(5))}
+}
+
+// rough number of statement executions (ranges multiply)
+func xCost(l []xStmt) int {
+	c := 0
+	for _, s := range l {
+		m := 1
+		if s.Op == "range" {
+			m = len(s.E.Vs) + 1
+		}
+		c += 1 + m*(xCost(s.B)+xCost(s.B2))
+		if s.Op == "yield" || s.Op == "include" || s.Op == "execlet" {
+			c += 40
+		}
+	}
+	return c
+}
+
+func (g *progGen) list(d int) []xStmt {
+	n := 1 + g.rng.Intn(2+g.rng.Intn(2))
+	var out []xStmt
+	for i := 0; i < n; i++ {
+		out = append(out, g.stmt(d))
+	}
+	return out
+}
+
+func (g *progGen) stmt(d int) xStmt {
+	none := xExpr{K: "none"}
+	leaf := d >= g.depth
+	k := g.rng.Intn(14)
+	if leaf && k >= 4 {
+		k = g.rng.Intn(4)
+	}
+	if g.noCalls && k >= 9 && k <= 12 {
+		k = 4 + g.rng.Intn(5)
+	}
+	switch k {
+	case 0:
+		return xStmt{Op: "text", ID: g.id("t"), E: none, E2: none}
+	case 1:
+		return xStmt{Op: "print", ID: g.id("p"), E: g.expr(), E2: none}
+	case 2:
+		return xStmt{Op: "let", ID: g.id("l"), N: []string{"s", "x1"}[g.rng.Intn(2)], E: g.expr(), E2: none}
+	case 3:
+		return xStmt{Op: "ycontent", ID: g.id("yc"), E: none, E2: none}
+	case 4:
+		s := xStmt{Op: "if", ID: g.id("if"), E: xExpr{K: "lit", A: []string{"true", "false"}[g.rng.Intn(2)]}, E2: none, B: g.list(d + 1)}
+		if g.rng.Intn(2) == 0 {
+			s.N, s.E2 = "x1", g.expr()
+		}
+		if g.rng.Intn(2) == 0 {
+			s.F, s.B2 = "else", g.list(d+1)
+		}
+		return s
+	case 5, 6:
+		vs := []string{"e1", "e2"}[:g.rng.Intn(3)]
+		s := xStmt{Op: "range", ID: g.id("rg"), F: []string{"none", "k", "kv"}[g.rng.Intn(3)], N: "k", N2: "v",
+			E2: xExpr{K: "asg", A: ":="}, E: xExpr{K: "list", A: []string{"slice", "map1", "chan"}[g.rng.Intn(3)], Vs: vs}, B: g.list(d + 1)}
+		if s.E.A == "chan" && s.F == "kv" {
+			s.F = "k"
+		}
+		if s.E.A == "map1" && len(vs) > 1 {
+			s.E.Vs = vs[:1]
+		}
+		if g.rng.Intn(3) == 0 {
+			s.G, s.B2 = "else", g.list(d+1)
+		}
+		return s
+	case 7, 8:
+		s := xStmt{Op: "try", ID: g.id("try"), E: none, E2: none, B: g.list(d + 1)}
+		if g.rng.Intn(2) == 0 {
+			s.F, s.B2 = "catch", g.list(d+1)
+			if g.rng.Intn(2) == 0 {
+				s.N = "e"
+			}
+		}
+		return s
+	case 9, 10:
+		s := xStmt{Op: "yield", ID: g.id("y"), N: []string{"rb0", "rb1"}[g.rng.Intn(2)], E: none, E2: none}
+		if s.N == "rb1" {
+			s.Ps = []xPar{{N: "p", E: g.expr()}}
+		}
+		if g.rng.Intn(2) == 0 {
+			s.E = xExpr{K: "lit", A: "yc"}
+		}
+		if g.rng.Intn(2) == 0 {
+			s.F, s.B2 = "content", g.list(d+1)
+		}
+		return s
+	case 11:
+		return xStmt{Op: "include", ID: g.id("inc"), N: "rinc", E: []xExpr{none, {K: "lit", A: "ic"}}[g.rng.Intn(2)], E2: none}
+	case 12:
+		return xStmt{Op: "execlet", ID: g.id("ex"), N: "r", N2: "rinc", E: none, E2: none}
+	}
+	return xStmt{Op: "block", ID: g.id("bd"), N: g.id("blk"), E: none, E2: none, B: g.list(d + 1)}
+}
+
+// record-exec <seed> <n> <depth>: VERIF_TRACE must name the event file
+func xRecord(a []string) int {
+	seed, n, depth := atoi(a[0]), atoi(a[1]), atoi(a[2])
+	defer installTracer()()
+	rng := rand.New(rand.NewSource(int64(seed)))
+	none := xExpr{K: "none"}
+	for i := 0; i < n; i++ {
+		g := &progGen{rng: rng, depth: depth}
+		gl := &progGen{rng: rng, depth: depth, noCalls: true, n: 1000}
+		c := xCase{Globals: map[string]string{}, Runs: []xRun{{Entry: "main", Vars: map[string]string{}, Data: "D"}}}
+		lib := xTmpl{Name: "lib", Body: []xStmt{
+			{Op: "block", ID: "rb0d", N: "rb0", E: none, E2: none, B: append([]xStmt{{Op: "let", ID: "rb0l", N: "s", E: xExpr{K: "lit", A: "b"}, E2: none}, {Op: "ycontent", ID: "rb0y", E: none, E2: none}}, gl.list(depth-1)...)},
+			{Op: "block", ID: "rb1d", N: "rb1", Ps: []xPar{{N: "p", E: xExpr{K: "lit", A: "dp"}}}, E: none, E2: none, B: append(gl.list(depth-1), xStmt{Op: "ycontent", ID: "rb1y", E: xExpr{K: "lit", A: "cc"}, E2: none})},
+		}}
+		c.Ts = []xTmpl{{Name: "main", Imps: []string{"lib"}, Body: append([]xStmt{{Op: "let", ID: "ls", N: "s", E: xExpr{K: "lit", A: "s0"}, E2: none}}, g.list(0)...)},
+			lib, {Name: "rinc", Body: gl.list(depth - 1)}}
+		if xCost(c.Ts[0].Body) > 1500 {
+			i--
+			continue
+		}
+		w, err := xBuild(&c, bracketEscaper, true)
+		if err != nil {
+			fmt.Fprintln(os.Stderr, err)
+			return 2
+		}
+		o := w.execute(c.Runs[0])
+		if o.Panic != "" {
+			fmt.Printf("RANDOM-PROGRAM-PANIC %s\n%v\n", o.Panic, w.src)
+			return 1
+		}
+		if strings.HasPrefix(o.Err, "LOAD:") {
+			fmt.Fprintf(os.Stderr, "generated program does not parse: %s\n%v\n", o.Err, w.src)
+			return 2
+		}
+	}
+	return 0
+}
+
+func init() { commands["record-exec"] = xRecord }
